@@ -21,6 +21,7 @@ import hailtop.utils.utils as U  # noqa: E402
 MODES = ('ret', 'raise', 'cancel', 'online')
 
 CREATED = []   # every task the code under test creates, in creation order (reset per run)
+SEMAS = []     # every semaphore the code under test creates (bounded_gather makes its own)
 
 
 class _AsyncioRecorder:
@@ -36,19 +37,28 @@ class _AsyncioRecorder:
         CREATED.append(t)
         return t
 
+    @staticmethod
+    def Semaphore(value=1):
+        sem = asyncio.Semaphore(value)
+        SEMAS.append(sem)
+        return sem
+
 
 U.asyncio = _AsyncioRecorder()
 CAP = 40    # upper bound on ticks spent reaching quiescence
 
-A_BOUND, A_BOUND1, A_CONTRACT, A_PENDING, A_PERMITS, A_PERMITS1, A_RETURNS = (1 << i for i in range(7))
+(A_BOUND, A_BOUND_AFTER, A_BOUND1, A_CONTRACT, A_PENDING, A_UNCANCELLED, A_PERMITS, A_PERMITS1,
+ A_RETURNS) = (1 << i for i in range(9))
 ASPECTS = {
-    A_BOUND: 'parallelism-bound-exceeded',            # more than P workers inside their body at once
-    A_BOUND1: 'parallelism-bound-plus-one-exceeded',  # more than P+1
-    A_CONTRACT: 'result-or-exception-contract',       # order of results / exceptions in place / first raised propagated
-    A_PENDING: 'task-pending-after-return',           # a worker task still pending when the call returns (modes that promise)
-    A_PERMITS: 'semaphore-permits-not-restored',      # semaphore value after everything finished != value before
+    A_BOUND: 'parallelism-bound-exceeded-during-call',  # more than P workers inside their body while the call runs
+    A_BOUND_AFTER: 'parallelism-bound-exceeded-after-return',  # ... among workers that go on after the call raised
+    A_BOUND1: 'parallelism-bound-plus-one-exceeded',    # more than P+1 at any time
+    A_CONTRACT: 'result-or-exception-contract',         # order of results / exceptions in place / first raised propagated
+    A_PENDING: 'task-pending-after-return',             # a task made by the call is not done when it returns (modes that promise)
+    A_UNCANCELLED: 'uncancelled-work-after-return',     # a worker body active at / started after return that was never cancelled
+    A_PERMITS: 'semaphore-permits-not-restored',        # semaphore value after everything finished != value before
     A_PERMITS1: 'semaphore-permits-off-by-more-than-one',
-    A_RETURNS: 'gather-does-not-return',              # all futures resolved, loop quiescent, call still pending
+    A_RETURNS: 'gather-does-not-return',                # all futures resolved, loop quiescent, call still pending
 }
 
 
@@ -115,7 +125,13 @@ async def _director(mode, holder, P, n, order, outs, drains, vals):
     loop = asyncio.get_running_loop()
     st = St()
     st.running = 0
-    st.maxr = 0
+    st.maxr = 0            # most workers inside their body at once while the call was in progress
+    st.maxr_after = 0      # ... counted at the moments a worker body started after the call had returned
+    st.returned = False
+    st.body_after_return = 0
+    st.body_at_return = 0
+    st.inbody = [False] * n
+    st.after = []          # workers whose body was active when the call returned, or started later
     st.started = [False] * n
     st.cancelled = [False] * n
     st.finished = [False] * n
@@ -131,7 +147,13 @@ async def _director(mode, holder, P, n, order, outs, drains, vals):
     def mk(i):
         async def w():
             st.running += 1
-            if st.running > st.maxr:
+            st.inbody[i] = True
+            if st.returned:
+                st.body_after_return += 1      # a worker body started after the call had returned
+                st.after.append(i)
+                if st.running > st.maxr_after:
+                    st.maxr_after = st.running
+            elif st.running > st.maxr:
                 st.maxr = st.running
             st.started[i] = True
             try:
@@ -146,36 +168,49 @@ async def _director(mode, holder, P, n, order, outs, drains, vals):
                 raise
             finally:
                 st.running -= 1
+                st.inbody[i] = False
         return w
 
     def snapshot(me):
+        st.returned = True
+        st.body_at_return = st.running   # workers inside their body at the moment the call returns
+        for i in range(n):
+            if st.inbody[i]:
+                st.after.append(i)
         st.pending_at_return = 0
         for t in CREATED:
             if not t.done():
                 st.pending_at_return += 1
 
     async def call():
+        # holder=True: the nested use bounded_gather2 is written for (the caller holds a permit of `sema`);
+        # holder=False: the top-level entry bounded_gather(*pfs, parallelism=P), which builds its own semaphore
         me = asyncio.current_task()
-        if holder:
-            await sema.acquire()
+        pfs = [mk(i) for i in range(n)]
+        if not holder:
+            try:
+                if mode == 'ret':
+                    return await U.bounded_gather(*pfs, parallelism=P, return_exceptions=True)
+                return await U.bounded_gather(*pfs, parallelism=P, cancel_on_error=(mode == 'cancel'))
+            finally:
+                snapshot(me)
+        await sema.acquire()
         try:
             try:
                 if mode == 'ret':
-                    return await U.bounded_gather2_return_exceptions(sema, *[mk(i) for i in range(n)])
+                    return await U.bounded_gather2_return_exceptions(sema, *pfs)
                 if mode == 'raise':
-                    return await U.bounded_gather2_raise_exceptions(sema, *[mk(i) for i in range(n)])
+                    return await U.bounded_gather2_raise_exceptions(sema, *pfs)
                 if mode == 'cancel':
-                    return await U.bounded_gather2_raise_exceptions(sema, *[mk(i) for i in range(n)],
-                                                                    cancel_on_error=True)
+                    return await U.bounded_gather2_raise_exceptions(sema, *pfs, cancel_on_error=True)
                 async with U.OnlineBoundedGather2(sema) as pool:
-                    ts = [pool.call(mk(i)) for i in range(n)]
-                    await pool.wait(ts)
+                    ts = [pool.call(pf) for pf in pfs]
+                    await pool.wait(ts[:1])   # the exit must wait for the others
                 return [t.result() for t in ts]
             finally:
                 snapshot(me)
         finally:
-            if holder:
-                sema.release()
+            sema.release()
 
     G = asyncio.ensure_future(call())
     await _quiesce()
@@ -197,7 +232,9 @@ async def _director(mode, holder, P, n, order, outs, drains, vals):
     mask = 0
     if st.maxr > P:
         mask |= A_BOUND
-    if st.maxr > P + 1:
+    if st.maxr_after > P:
+        mask |= A_BOUND_AFTER
+    if st.maxr > P + 1 or st.maxr_after > P + 1:
         mask |= A_BOUND1
     if not G.done():
         mask |= A_RETURNS
@@ -233,6 +270,10 @@ async def _director(mode, holder, P, n, order, outs, drains, vals):
     promised = mode in ('ret', 'cancel', 'online') or gexc is None
     if promised and st.pending_at_return != 0:
         mask |= A_PENDING
+    if promised:
+        for i in st.after:
+            if not st.cancelled[i]:
+                mask |= A_UNCANCELLED
     # after everything has finished the semaphore holds what it held before the call
     pend_now = 0
     for t in CREATED:
@@ -242,11 +283,17 @@ async def _director(mode, holder, P, n, order, outs, drains, vals):
     if pend_now:
         mask |= A_RETURNS   # all futures are resolved: nothing may still be pending now
         await _quiesce()
+    if not holder:
+        sema = SEMAS[0] if len(SEMAS) == 1 else None
+    if sema is None:
+        mask |= A_PERMITS | A_PERMITS1
+        sema = asyncio.Semaphore(-1)
     if sema._value != P:
         mask |= A_PERMITS
     if not (P - 1 <= sema._value <= P + 1):
         mask |= A_PERMITS1
-    info = {'max_running': st.maxr, 'raise_order': list(st.raise_order), 'propagated': getattr(gexc, 'i', repr(gexc)),
+    info = {'max_running': st.maxr, 'max_running_after_return': st.maxr_after, 'bodies_active_at_return': st.body_at_return,
+            'bodies_started_after_return': st.body_after_return, 'raise_order': list(st.raise_order), 'propagated': getattr(gexc, 'i', repr(gexc)),
             'pending_at_return': st.pending_at_return, 'sema_value_after': sema._value, 'failed': failed,
             'cancelled': list(st.cancelled), 'finished': list(st.finished), 'started': list(st.started)}
     return mask, st, info
@@ -256,6 +303,7 @@ def run_schedule(mode, holder, P, n, perm, outs, drains, vals):
     """returns (mask, info)"""
     order = decode_perm(n, perm)
     del CREATED[:]
+    del SEMAS[:]
     loop = DetLoop()
     try:
         mask, st, info = loop.run_until_complete(_director(mode, holder, P, n, order, outs, drains, vals))
